@@ -269,6 +269,45 @@ theorem merge_line_covered_monotone {r : Registry} {t u : Trace} (hr : RWF r) (h
   simp only [decide_eq_true_eq]
   constructor <;> intro h <;> constructor <;> omega
 
+/-! ### The `>= 2 executions` rule of `_predicate_fitness`, summand by summand -/
+
+/-- An outcome without guidance (distance `inf`: `if obj:`, `is`, exception / isinstance matches,
+incomparable operands) contributes exactly `1`, whatever the execution count — in particular when the
+count is `>= 2` and `normalise` is applied (its `isinf` case); it never raises. -/
+theorem predicate_fitness_inf (p : Nat) (bd : Dict Dist) (t : Trace) (h : dget bd p = some .inf) :
+    predicateFitness p bd t = .ok 1 := by
+  unfold predicateFitness zeroAt
+  simp only [h, Dist.isZero, Bool.false_eq_true, if_false]
+  cases dget t.cnt p with
+  | none => rfl
+  | some c => by_cases h2 : 2 ≤ c <;> simp [h2, normalise]
+
+/-- **C11, `_predicate_fitness`**: every summand of the merged trace (either outcome of any predicate)
+is computed without an exception, lies in `[0, 1]` and is at most the corresponding summand of either
+part — for all execution counts (also when merging lifts a count from 1 to `>= 2`, which switches the
+summand from the constant `1` to `normalise(distance)`) and all distances (also `inf`). -/
+theorem merge_predicate_fitness_antitone {t u : Trace} (ht : Shape t) (hu : Shape u) (p : Nat) :
+    (∃ v v₁ v₂, predicateFitness p (merge t u).dT (merge t u) = .ok v ∧
+      predicateFitness p t.dT t = .ok v₁ ∧ predicateFitness p u.dT u = .ok v₂ ∧
+      0 ≤ v ∧ v ≤ v₁ ∧ v ≤ v₂ ∧ v₁ ≤ 1 ∧ v₂ ≤ 1) ∧
+    (∃ v v₁ v₂, predicateFitness p (merge t u).dF (merge t u) = .ok v ∧
+      predicateFitness p t.dF t = .ok v₁ ∧ predicateFitness p u.dF u = .ok v₂ ∧
+      0 ≤ v ∧ v ≤ v₁ ∧ v ≤ v₂ ∧ v₁ ≤ 1 ∧ v₂ ≤ 1) := by
+  have hm := shape_merge ht hu
+  have bl := below_merge_left (t := t) hu
+  have br := below_merge_right (t := t) hu
+  exact
+    ⟨⟨_, _, _, predicateFitness_eq hm.keysT hm.nonnegT p, predicateFitness_eq ht.keysT ht.nonnegT p,
+        predicateFitness_eq hu.keysT hu.nonnegT p, pfPure_nonneg hm.keysT hm.nonnegT p,
+        pfPure_antitone ht.keysT ht.nonnegT hm.keysT hm.nonnegT bl.cnt bl.dT p,
+        pfPure_antitone hu.keysT hu.nonnegT hm.keysT hm.nonnegT br.cnt br.dT p,
+        pfPure_le_one ht.keysT ht.nonnegT p, pfPure_le_one hu.keysT hu.nonnegT p⟩,
+      ⟨_, _, _, predicateFitness_eq hm.keysF hm.nonnegF p, predicateFitness_eq ht.keysF ht.nonnegF p,
+        predicateFitness_eq hu.keysF hu.nonnegF p, pfPure_nonneg hm.keysF hm.nonnegF p,
+        pfPure_antitone ht.keysF ht.nonnegF hm.keysF hm.nonnegF bl.cnt bl.dF p,
+        pfPure_antitone hu.keysF hu.nonnegF hm.keysF hm.nonnegF br.cnt br.dF p,
+        pfPure_le_one ht.keysF ht.nonnegF p, pfPure_le_one hu.keysF hu.nonnegF p⟩⟩
+
 /-! ### Adding a test to a suite -/
 
 /-- **C11**: for any suite `ts` and any additional test `t`, every suite fitness of `ts ++ [t]` is at
@@ -323,5 +362,17 @@ example : (merge exA exB).lines ≠ (merge exB exA).lines ∧
     branchFitness (merge exA exB) exReg [] [] [] = .ok 2 ∧
     branchFitness exA exReg [] [] [] = .ok 4 ∧ branchFitness exB exReg [] [] [] = .ok 3 := by
   refine ⟨by decide, by decide +kernel, by decide +kernel, by decide +kernel, by decide +kernel⟩
+
+/-- `if obj:` executed once by each of two tests: no guidance towards the false outcome (`inf`). -/
+def exI : Trace := ⟨[0], [(0, 1)], [(0, .fin 0)], [(0, .inf)], [0], []⟩
+
+/-- merging lifts the count to 2, the distance stays `inf`, and the summand stays 1 (not `inf/inf`):
+the suite fitness is 1 before and after adding the second test -/
+example : dget (merge exI exI).cnt 0 = some 2 ∧ dget (merge exI exI).dF 0 = some .inf ∧
+    predicateFitness 0 (merge exI exI).dF (merge exI exI) = .ok 1 ∧
+    predicateFitness 0 exI.dF exI = .ok 1 ∧
+    branchFitness (analyze [exI]) ⟨[⟨0, 2, []⟩], [⟨0, 0, 0⟩], [0]⟩ [] [] [] = .ok 1 ∧
+    branchFitness (analyze [exI, exI]) ⟨[⟨0, 2, []⟩], [⟨0, 0, 0⟩], [0]⟩ [] [] [] = .ok 1 := by
+  refine ⟨by decide, by decide, by decide +kernel, by decide +kernel, by decide +kernel, by decide +kernel⟩
 
 end PynguinModel.Fitness
